@@ -59,16 +59,31 @@ static std::string ref_gensalt(const char *prefix, unsigned long count, const st
 }
 
 // One hand-spelt or gensalt-made setting of method index mi.
+static bool g_last_cheap;
 static std::string mk_setting(Rng &g, int mi) {
+  g_last_cheap = false;
   switch (mi) {
-    case 0: case 1: {  // yescrypt / gost-yescrypt: N = 2^10 or 2^11 blocks of 1 KiB
-      std::string s = ref_gensalt(PREFIX[mi], 1 + g.below(2), rnd_bytes(g, 16 + g.below(17)));
+    case 0: case 1: {  // yescrypt / gost-yescrypt
+      if (g.chance(1, 2)) {
+        // unusual parameters through the tree's own encoder: small N so that p > 1, t > 0, other r and flavours stay cheap
+        static const unsigned flv[] = {0x0b6 /* RW defaults */, 0x0b6, 0x002 /* RW, minimal */, 0x001 /* WORM */, 0x0b6 | 0x004, 0x002 | 0x018};
+        char buf[256]; std::string salt = rnd_bytes(g, g.chance(1, 4) ? 64 : g.chance(1, 2) ? (size_t)g.range(0, 64) : (size_t)g.range(0, 32));
+        unsigned r = g.chance(1, 2) ? 8 : (unsigned)g.range(1, 4), p = (unsigned)g.range(1, 3), t = (unsigned)g.below(3);
+        unsigned long long N = 1ull << g.range(p > 1 ? 6 : 2, 9);
+        if (gen_yescrypt_setting(flv[g.below(6)], N, r, p, t, (const unsigned char *)salt.data(), salt.size(), buf, sizeof buf)) {
+          std::string s = buf; if (mi == 1) s = "$gy$" + s.substr(3);
+          if (g.chance(1, 4)) s += "$";
+          g_last_cheap = true;
+          return s;
+        }
+      }
+      std::string s = ref_gensalt(PREFIX[mi], 1 + g.below(2), rnd_bytes(g, g.chance(1, 3) ? 16 + g.below(49) : 16 + g.below(17)));
       if (!s.empty() && g.chance(1, 4)) s += "$";
       return s;
     }
     case 2: {  // scrypt, hand-spelt: N=2^(6..10), r in {1,2,8}, p in {1,2}
       static const unsigned rs[] = {1, 1, 2, 8};
-      std::string s = std::string("$7$") + B64[6 + g.below(5)] + enc30(rs[g.below(4)]) + enc30(1 + (unsigned)g.below(2)) + b64salt(g, g.below(23));
+      std::string s = std::string("$7$") + B64[g.chance(1, 6) ? 1 + g.below(5) : 6 + g.below(5)] + enc30(rs[g.below(4)]) + enc30(1 + (unsigned)g.below(3)) + b64salt(g, g.chance(1, 3) ? (size_t)g.range(24, 86) : g.below(23));
       if (g.chance(1, 2)) s += "$";
       return s;
     }
@@ -116,9 +131,9 @@ static Pool &pool_for(uint64_t poolseed) {
   p.secrets.push_back(mk_phrase(g, 65 + g.below(20), 1));   // longer than an HMAC block
   p.secrets.push_back(mk_phrase(g, 511, 1));
   for (int mi = 0; mi < 16; mi++)
-    for (int k = 0; k < 3; k++) {
+    for (int k = 0; k < 4; k++) {
       std::string s = mk_setting(g, mi);
-      if (!s.empty()) p.valid.push_back({METHODS[mi], s, COST[mi]});
+      if (!s.empty()) p.valid.push_back({METHODS[mi], s, g_last_cheap ? 2 : COST[mi]});
     }
   // settings that carry a trailing hash portion (re-hash form): a few cheap ones
   for (int k = 0; k < 6; k++) {
@@ -132,6 +147,33 @@ static Pool &pool_for(uint64_t poolseed) {
   static const char *odd[][2] = {{"sha1crypt", "$sha1$0$salt$"}, {"sunmd5", "$md5,"}, {"gost_yescrypt", "$gy$j9T$"}, {"yescrypt", "$y$j9T$"}, {"md5crypt", "$1$"}, {"sha512crypt", "$6$"}, {"sha256crypt", "$5$$"}};
   for (auto &m : odd) p.odd.emplace_back(m[0], m[1]);
   return p;
+}
+
+// A randomly edited setting may spell an enormous cost (rounds=15640000, bcrypt cost 24, yescrypt N = 2^40, a sha1crypt
+// count with a minus sign, a bsdicrypt count of millions).  Cost is not what any check here decides, and such a call
+// would only trip the watchdog; keep the edit only if every cost field it could have touched is still small.
+static bool cheap_enough(const std::string &s, const std::string &orig) {
+  auto num_after = [&](const char *key, unsigned long limit) {
+    size_t p = s.find(key); if (p == std::string::npos) return true;
+    p += strlen(key); if (p < s.size() && (s[p] == '-' || s[p] == '+')) return false;
+    unsigned long v = 0; size_t n = 0;
+    while (p < s.size() && s[p] >= '0' && s[p] <= '9' && n < 12) { v = v * 10 + (unsigned long)(s[p] - '0'); p++; n++; }
+    return v <= limit && n < 12;
+  };
+  if (!num_after("rounds=", 20000)) return false;
+  if (!s.compare(0, 6, "$sha1$") && !num_after("$sha1$", 3000)) return false;
+  if (s.size() >= 6 && s[0] == '$' && s[1] == '2') { if (!(s[4] == '0' && s[5] >= '0' && s[5] <= '6')) return s[4] < '0' || s[4] > '9' || s[5] < '0' || s[5] > '9'; }
+  if (!s.empty() && s[0] == '_') { unsigned long c = 0; for (int i = 0; i < 4 && (size_t)(1 + i) < s.size(); i++) { const char *q = strchr(B64, s[(size_t)(1 + i)]); if (!q) return true; c |= (unsigned long)(q - B64) << (6 * i); } if (c > 5000) return false; }
+  // yescrypt family: the parameter field (up to the '$' that ends it) must be untouched
+  for (const char *pf : {"$y$", "$gy$", "$7$"}) {
+    size_t l = strlen(pf);
+    if (!orig.compare(0, l, pf)) {
+      size_t e = orig.find('$', l); if (e == std::string::npos) e = orig.size();
+      if (pf[1] == '7') e = std::min(orig.size(), l + 11);
+      if (s.compare(0, e, orig, 0, e) != 0) return false;
+    }
+  }
+  return true;
 }
 
 // ---------------------------------------------------------------- request drawing
@@ -148,11 +190,19 @@ static Req valid_req(Rng &g, Pool &p, bool secret, int maxcost) {
   Req r; const SettingInfo &si = pick_valid(g, p, maxcost);
   r.ph = Bytes(secret ? p.secrets[g.below(p.secrets.size())] : p.phrases[g.below(p.phrases.size())]);
   r.st = Bytes(si.s); r.m = si.m; r.cls = "valid";
+  if (g.chance(1, 4)) {
+    // a setting of its own for this plan (hand-spelt methods only: no reference round trip needed to make it)
+    static const int fresh_mi[] = {2, 7, 8, 9, 11, 12, 13, 14, 15, 0, 1};
+    int mi = fresh_mi[g.below(g.chance(1, 6) ? 11 : 9)];
+    std::string s = mk_setting(g, mi);
+    if (!s.empty()) { r.st = Bytes(s); r.m = METHODS[mi]; r.cls = "valid-fresh"; }
+  }
+  if (!secret && g.chance(1, 12)) r.ph = Bytes(mk_phrase(g, (size_t)g.range(0, 511), (int)g.below(2)));
   return r;
 }
 static Req invalid_req(Rng &g, Pool &p, bool secret) {
   Req r = valid_req(g, p, secret, 3);
-  switch (g.below(11)) {
+  switch (g.below(13)) {
     case 0: r.ph = Bytes::Null(); r.cls = "null-phrase"; r.mustfail = true; break;
     case 1: r.st = Bytes::Null(); r.cls = "null-setting"; r.mustfail = true; break;
     case 2: r.ph = Bytes(mk_phrase(g, (size_t)g.range(512, 700), (int)g.below(2))); r.cls = "long-phrase"; r.mustfail = true; break;
@@ -185,6 +235,19 @@ static Req invalid_req(Rng &g, Pool &p, bool secret) {
       }
       std::string st = std::string(pfx[k]) + num + "$" + (k < 3 ? b64salt(g, 8) + "$" : std::string("abcdefghijklmnopqrstuu"));
       r.st = Bytes(st); r.m = k == 0 ? "sha512crypt" : k == 1 ? "sha256crypt" : k == 2 ? "sunmd5" : "bcrypt"; r.cls = "bad-number"; r.mustfail = true; break;
+    }
+    case 9: {  // one random edit of a valid setting with characters that pass the generic filter: reaches the
+               // method-specific validation paths; whether the result is valid is the tree's business (the reference decides)
+      std::string s = r.st.b; const std::string orig = s;
+      static const char pool_chars[] = "$$$,=./0123456789ABCDEFGHIJKLMNOPQRSTUVWXYZabcdefghijklmnopqrstuvwxyz\"#%&'()+-<>?@[]^_`{|}~";
+      int edits = (int)g.range(1, 2);
+      for (int e = 0; e < edits && !s.empty(); e++) {
+        size_t pos = g.below(s.size()); char c = pool_chars[g.below(sizeof pool_chars - 1)];
+        std::string before = s;
+        switch (g.below(4)) { case 0: s[pos] = c; break; case 1: s.insert(pos, 1, c); break; case 2: s.erase(pos, 1); break; default: s.insert(pos, 1, s[pos]); }
+        if (!cheap_enough(s, orig)) s = before;
+      }
+      r.st = Bytes(s); r.cls = s == orig ? "valid" : "mutated"; break;
     }
     case 7: {  // truncation of a valid setting (may still be valid: the reference decides)
       std::string s = r.st.b; if (!s.empty()) s.resize(g.below(s.size())); r.st = Bytes(s); r.cls = "truncated"; break;
@@ -223,6 +286,22 @@ static void pre_scribble(Rng &g, J &op, unsigned pz, unsigned pg, unsigned pa) {
 static std::string hex64(Rng &g, int style) {
   // 64-byte bit vector; only the low bit of each byte counts, high bits are noise
   std::string v(64, '\0');
+  if (style >= 10) {
+    // highly structured values that uniform sampling would essentially never produce
+    unsigned char k[8];
+    switch (style) {
+      case 10: { unsigned char b = (unsigned char)g.below(256); for (auto &x : k) x = b; break; }                       // one byte repeated
+      case 11: { unsigned char a = (unsigned char)g.below(256), b = (unsigned char)g.below(256); for (int i = 0; i < 8; i++) k[i] = i & 1 ? a : b; break; }
+      case 12: { for (int i = 0; i < 4; i++) { k[i] = (unsigned char)g.below(256); k[7 - i] = k[i]; } break; }             // palindrome
+      case 13: { for (int i = 0; i < 4; i++) { k[i] = (unsigned char)g.below(256); k[4 + i] = (unsigned char)~k[i]; } break; } // halves complementary
+      case 14: { for (int i = 0; i < 8; i++) k[i] = (unsigned char)(i * 0x11 + g.below(2)); break; }
+      default: { unsigned char b = (unsigned char)(g.chance(1, 2) ? 0x00 : 0xff); for (auto &x : k) x = b; k[g.below(8)] ^= (unsigned char)(1u << g.below(8)); k[g.below(8)] ^= (unsigned char)(1u << g.below(8)); break; }  // weight 0..2 / 62..64
+    }
+    static const unsigned char noises[] = {0x00, 0x80, 0xfe, 0x7e, 0x02, 0xaa};
+    unsigned char nz = noises[g.below(6)]; bool rnd = g.chance(1, 3);
+    for (int a = 0; a < 8; a++) for (int b = 0; b < 8; b++) v[(size_t)(a * 8 + b)] = (char)(((k[a] >> (7 - b)) & 1) | ((rnd ? g.below(128) << 1 : nz) & 0xfe));
+    return hexenc(v);
+  }
   if (style == 0) for (auto &c : v) c = (char)g.below(256);
   else if (style == 1) { size_t one = g.below(64); for (size_t i = 0; i < 64; i++) v[i] = (char)((i == one ? 1 : 0) | (g.below(128) << 1)); }          // weight 1
   else if (style == 2) { size_t zero = g.below(64); for (size_t i = 0; i < 64; i++) v[i] = (char)((i == zero ? 0 : 1) | (g.below(128) << 1)); }        // weight 63
@@ -308,7 +387,7 @@ static J plan_c07(uint64_t seed, const std::string &tier, bool secrets, const st
       if (g.chance(15, 100)) op["phin"] = 1;
       if (g.chance(15, 100)) op["stin"] = 1;
       if (have_gs && g.chance(1, 4)) op["stsrc"] = "gs";
-      if (op.str("k") == "crypt_rn" && g.chance(1, 12)) { static const long sz[] = {-5, 0, 1, 2, 3, 100, 384, 32767}; op["size"] = sz[g.below(8)]; op["gseed"] = (long long)g.below(1000); }
+      if (op.str("k") == "crypt_rn" && g.chance(1, 12)) { static const long sz[] = {-5, 0, 1, 2, 3, 100, 384, 32767, 32769, 40000}; op["size"] = sz[g.below(10)]; op["gseed"] = (long long)g.below(1000); }
       if (op.str("k") == "crypt_r" || (op.str("k") == "crypt_rn" && !op.has("size"))) keyed[(size_t)op.i("obj")] = 0;
       if (op.has("pre") && op.has("obj")) keyed[(size_t)op.i("obj")] = 0;
     } else if (x < 77) {
@@ -326,7 +405,18 @@ static J plan_c07(uint64_t seed, const std::string &tier, bool secrets, const st
         else { op["k"] = "encrypt"; op["blk"] = hex64(g, (int)g.below(3)); op["flag"] = (long long)g.below(2); }
       } else {
         int o = (int)g.below((uint64_t)nobj);
-        if (!keyed[(size_t)o] || g.chance(1, 2)) { op["k"] = "setkey_r"; op["obj"] = o; op["key"] = hex64(g, (int)g.below(4)); keyed[(size_t)o] = 1; }
+        if (!keyed[(size_t)o] || g.chance(1, 2)) {
+          op["k"] = "setkey_r"; op["obj"] = o; op["key"] = hex64(g, (int)g.below(4)); keyed[(size_t)o] = 1;
+          if (g.chance(1, 2)) {
+            // straight afterwards a DES-family hash on the very same object, short or empty phrase: the key schedule
+            // setkey_r left in the scratch area is exactly the residue such a call could trip over
+            ops.push(op); i++;
+            Req r = valid_req(g, pool, secrets, 2);
+            for (int tries = 0; tries < 40 && r.m != "descrypt" && r.m != "bigcrypt" && r.m != "bsdicrypt"; tries++) r = valid_req(g, pool, secrets, 2);
+            if (!secrets) { static const char *shortp[] = {"", "", "a", "ab", "abcdefg", "abcdefgh", "abcdefghi"}; r.ph = Bytes(std::string(shortp[g.below(7)])); }
+            op = J::obj(); op["k"] = g.chance(1, 2) ? "crypt_r" : "crypt_rn"; op["obj"] = o; put_req(op, r); issued.push_back(r); keyed[(size_t)o] = 0;
+          }
+        }
         else { op["k"] = "encrypt_r"; op["obj"] = o; op["blk"] = hex64(g, (int)g.below(3)); op["flag"] = (long long)g.below(2); }
       }
     } else if (x < 97) {
@@ -363,8 +453,8 @@ static J plan_c05(uint64_t seed, const std::string &tier) {
     } else place(g, op, nobj, nslots);
     put_req(op, r);
     if (op.str("k") == "crypt_rn" && want_fail && g.chance(1, 4)) {
-      static const long sz[] = {-1, 0, 1, 2, 3, 12, 13, 383, 384, 385, 32767};
-      op["size"] = sz[g.below(11)]; op["gseed"] = (long long)g.below(1000); op["cls"] = "small-size"; op["mustfail"] = "small-size";
+      static const long sz[] = {-1, 0, 1, 2, 3, 12, 13, 383, 384, 385, 32767, -2147483647 - 1, 1151, 1152, 2047};
+      op["size"] = sz[g.below(15)]; op["gseed"] = (long long)g.below(1000); op["cls"] = "small-size"; op["mustfail"] = "small-size";
       Req v = valid_req(g, pool, false, 1); op["ph"] = v.ph.to_json(); op["st"] = v.st.to_json(); op["m"] = v.m;
     }
     pre_scribble(g, op, 5, 10, 5);
@@ -410,7 +500,7 @@ static J plan_c12(uint64_t seed, const std::string &tier) {
   int groups = (int)g.range(1, 3);
   for (int gi = 0; gi < groups; gi++) {
     int mi = (int)g.below(17); unsigned long count = g.chance(3, 4) ? 0 : (mi == 7 || mi == 8 ? 5000 : mi <= 1 ? 2 : mi >= 3 && mi <= 6 ? 5 : mi == 2 ? 6 : mi == 13 ? 7 : 0);
-    int reps = (int)g.range(1, 6);
+    int reps = (int)g.range(1, g.chance(1, 10) ? 40 : 6);
     for (int i = 0; i < reps; i++) {
       J op = J::obj(); static const char *ks[] = {"gensalt", "gensalt_rn", "gensalt_ra"};
       op["k"] = ks[g.below(3)];
@@ -437,13 +527,17 @@ static J plan_c14(uint64_t seed, const std::string &tier) {
     if (x < 25 || i == 0) {
       op["k"] = "slot_set"; op["slot"] = (long long)g.below((uint64_t)nslots);
       switch (g.below(6)) {
-        case 0: op["blk"] = -1; op["rec"] = 0; break;
+        case 0: op["blk"] = -1; op["rec"] = g.chance(1, 4) ? (g.chance(1, 2) ? (long)CDSZ : g.range(1, 50000)) : 0; break;   // NULL, sometimes with a stale size (free(p); p = NULL;)
         case 1: op["blk"] = (long)CDSZ; op["rec"] = (long)CDSZ; break;
         case 2: { long b = (long)CDSZ + g.range(1, 5000); op["blk"] = b; op["rec"] = g.chance(1, 2) ? b : (long)CDSZ; break; }
         case 3: { long b = g.range(1, (long)CDSZ - 1); op["blk"] = b; op["rec"] = g.chance(3, 4) ? b : g.range(1, b); break; }
         case 4: { long b = g.chance(1, 2) ? (long)CDSZ : g.range(1, 3000); op["blk"] = b; op["rec"] = g.chance(1, 2) ? 0 : -g.range(1, 40000); break; }
         default: { long b = g.range(1, 64); op["blk"] = b; op["rec"] = b; break; }
       }
+      if (g.chance(1, 12)) { static const long edge[] = {(long)CDSZ - 1, (long)CDSZ + 1, (long)CDSZ - 2, 1, 2, 3}; long b = edge[g.below(6)]; op["blk"] = b; op["rec"] = g.chance(1, 4) ? b - 1 : b; }
+      // what the caller's block holds before the library sees it
+      static const char *fills[] = {"dirty", "dirty", "zero", "star", "hashlike", "ones"};
+      op["fill"] = fills[g.below(6)];
     } else if (x < 75) {
       Req r = g.chance(2, 5) ? invalid_req(g, pool, false) : valid_req(g, pool, false, 2);
       op["k"] = "crypt_ra"; op["slot"] = (long long)g.below((uint64_t)nslots); put_req(op, r);
@@ -458,40 +552,51 @@ static J plan_c14(uint64_t seed, const std::string &tier) {
   return p;
 }
 
+static int des_style(Rng &g, int plain) { return g.chance(1, 4) ? 10 + (int)g.below(6) : (int)g.below((uint64_t)plain); }
 static J plan_c17(uint64_t seed, const std::string &tier) {
   Rng g(seed, "plan"); Pool &pool = pool_for(seed >> 6);
   J p = base_plan("C17", "asan", seed, tier, g);
   int nobj = 1 + (int)g.below(3);
   J t = J::obj(); t["objs"] = mk_objs(g, nobj); t["slots"] = 1;
   J ops = J::arr();
-  int n = (int)g.range(3, 30);
+  int n = (int)g.range(3, g.chance(1, 8) ? 70 : 30);
   bool skeyed = false; std::vector<int> keyed((size_t)nobj, 0);
-  std::string lastkey, lastblk;
+  std::string lastkey, lastblk, lastphrase;
+  // the packed 8-byte form of a 64-byte key vector, and back (noise-free): lets the same key travel between
+  // des_set_key, setkey and setkey_r, and lets a key be what crypt(3) derives from a passphrase block (c << 1)
+  auto pack8 = [](const std::string &hex) { std::string v, o(8, '\0'); hexdec(hex, v); v.resize(64); for (int a = 0; a < 8; a++) { unsigned c = 0; for (int b2 = 0; b2 < 8; b2++) c = (c << 1) | ((unsigned char)v[(size_t)(a * 8 + b2)] & 1); o[(size_t)a] = (char)c; } return o; };
+  auto unpack8 = [](const std::string &k8) { std::string v(64, '\0'); for (int a = 0; a < 8; a++) for (int b2 = 0; b2 < 8; b2++) v[(size_t)(a * 8 + b2)] = (char)(((unsigned char)k8[(size_t)a] >> (7 - b2)) & 1); return hexenc(v); };
+  auto phrase_key = [&](Rng &gg) { std::string k8(8, '\0'); size_t blocks = (lastphrase.size() + 7) / 8; size_t off = blocks ? 8 * gg.below(blocks) : 0; for (size_t q = 0; q < 8 && off + q < lastphrase.size(); q++) k8[q] = (char)((unsigned char)lastphrase[off + q] << 1); return k8; };
   for (int i = 0; i < n; i++) {
     unsigned x = (unsigned)g.below(100); J op = J::obj();
     if (x < 18) {
-      op["k"] = "setkey"; std::string k = hex64(g, (int)g.below(4));
+      op["k"] = "setkey"; std::string k = hex64(g, des_style(g, 4));
       if (!lastkey.empty() && g.chance(1, 4)) {   // same key, parity bits flipped, noise bits redrawn
         std::string raw; hexdec(lastkey, raw); for (size_t b = 7; b < 64; b += 8) raw[b] ^= 1; for (auto &c : raw) c = (char)((c & 1) | (g.below(128) << 1)); k = hexenc(raw);
       }
+      if (!lastphrase.empty() && g.chance(1, 5)) k = unpack8(phrase_key(g));   // the key crypt(3) derives from a block of an earlier phrase
       op["key"] = k; lastkey = k; skeyed = true;
     } else if (x < 45 && skeyed) {
-      op["k"] = "encrypt"; std::string b = hex64(g, (int)g.below(3));
+      op["k"] = "encrypt"; std::string b = hex64(g, des_style(g, 3));
       if (!lastblk.empty() && g.chance(1, 3)) { std::string raw; hexdec(lastblk, raw); for (auto &c : raw) c = (char)((c & 1) | (g.below(128) << 1)); b = hexenc(raw); }
+      else if (!lastkey.empty() && g.chance(1, 8)) b = lastkey;   // block equal to the key
       op["blk"] = b; lastblk = b; op["flag"] = (long long)(g.chance(1, 3) ? g.below(2) : (g.chance(1, 2) ? 0 : (long long)g.range(1, 255)));
     } else if (x < 58) {
-      int o = (int)g.below((uint64_t)nobj); op["k"] = "setkey_r"; op["obj"] = o; op["key"] = (!lastkey.empty() && g.chance(1, 2)) ? lastkey : hex64(g, (int)g.below(4)); keyed[(size_t)o] = 1;
+      int o = (int)g.below((uint64_t)nobj); op["k"] = "setkey_r"; op["obj"] = o; op["key"] = (!lastkey.empty() && g.chance(1, 2)) ? lastkey : hex64(g, des_style(g, 4)); keyed[(size_t)o] = 1;
     } else if (x < 75) {
       int o = (int)g.below((uint64_t)nobj);
       if (!keyed[(size_t)o]) { op["k"] = "setkey_r"; op["obj"] = o; op["key"] = hex64(g, 0); keyed[(size_t)o] = 1; }
-      else { op["k"] = "encrypt_r"; op["obj"] = o; op["blk"] = (!lastblk.empty() && g.chance(1, 2)) ? lastblk : hex64(g, (int)g.below(3)); op["flag"] = (long long)g.below(2); }
+      else { op["k"] = "encrypt_r"; op["obj"] = o; op["blk"] = (!lastblk.empty() && g.chance(1, 2)) ? lastblk : hex64(g, des_style(g, 3)); op["flag"] = (long long)g.below(2); }
     } else if (x < 83) {
       op["k"] = "des_block"; op["key"] = hexenc(rnd_bytes(g, 8)); op["blk"] = hexenc(rnd_bytes(g, 8)); op["flag"] = (long long)g.below(2); op["gseed"] = (long long)g.below(1000);
+      if (!lastkey.empty() && g.chance(1, 3)) op["key"] = hexenc(pack8(lastkey));          // the key the obsolete API used a moment ago
+      else if (g.chance(1, 3)) { lastkey = unpack8(rnd_bytes(g, 8)); op["key"] = hexenc(pack8(lastkey)); }   // ... or will use next
     } else if (x < 95) {
       // hashing traffic, DES-based methods preferred: the static key must survive it
       Req r = valid_req(g, pool, false, 2);
       if (g.chance(1, 2)) for (int tries = 0; tries < 30 && r.m != "descrypt" && r.m != "bigcrypt" && r.m != "bsdicrypt"; tries++) r = valid_req(g, pool, false, 2);
       op["k"] = hash_kind(g, true); place(g, op, nobj, 1); put_req(op, r);
+      if (!r.ph.null) lastphrase = r.ph.b;
       if (op.has("obj")) keyed[(size_t)op.i("obj")] = 0;
     } else { op = gensalt_op(g, true, true, true); }
     ops.push(op);
@@ -545,6 +650,14 @@ J c15_corpus_item(long idx, long *total) {
       if (st.empty()) continue;
       std::vector<std::string> settings{st};
       if (mi <= 1) { std::string big = ref_gensalt(PREFIX[mi], 6, std::string(16, 'S')); if (!big.empty()) settings.push_back(big); }   // 32 MiB: huge-page path
+      std::vector<std::string> extra;   // parameter shapes that change the allocation sequence; crypt_ra from (NULL,0) only
+      if (mi <= 1) {
+        std::string mid = ref_gensalt(PREFIX[mi], 5, std::string(16, 'M')); if (!mid.empty()) extra.push_back(mid);                       // 16 MiB: pre-hash pass, below the huge-page threshold
+        char buf[256]; static const unsigned fl[] = {0x0b6, 0x0b6, 0x002, 0x001};
+        static const unsigned pp[] = {2, 3, 2, 2}, tt[] = {0, 1, 0, 0}; static const unsigned long long nn[] = {256, 64, 512, 128};
+        for (int v = 0; v < 4; v++) if (gen_yescrypt_setting(fl[v], nn[v], 8, pp[v], tt[v], (const unsigned char *)"corpus-salt-0123", 16, buf, sizeof buf)) { std::string e = buf; if (mi == 1) e = "$gy$" + e.substr(3); extra.push_back(e); }
+      }
+      if (mi == 2) { extra.push_back(std::string("$7$") + B64[8] + enc30(4) + enc30(3) + "p3salt$"); extra.push_back(std::string("$7$") + B64[14] + enc30(8) + enc30(2) + "16MiBp2$"); }
       if (mi == 2) settings.push_back(std::string("$7$") + B64[15] + enc30(8) + enc30(1) + "hugepagesalt$");                               // N=2^15 r=8: 32 MiB
       for (size_t si = 0; si < settings.size(); si++) {
         for (int e = 0; e < 5; e++) {
@@ -561,6 +674,16 @@ J c15_corpus_item(long idx, long *total) {
           }
         }
       }
+      for (auto &es : extra) {
+        Item it; it.setup = J::arr(); it.setup.push(slot0(-1, 0)); J op = J::obj(); op["k"] = "crypt_ra"; op["slot"] = 0; op["ph"] = Bytes(phrase).to_json(); op["st"] = Bytes(es).to_json(); op["m"] = METHODS[mi]; op["cls"] = "valid-shape"; op["huge_ok"] = 0;
+        it.op = op; items.push_back(it);
+      }
+      if (mi == 0 || mi == 11)   // other starting states of the (*data,*size) pair: one mapping method, one plain one
+        for (int v = 0; v < 5; v++) {
+          static const long blk[] = {100, 100, 32767, 40000, 1}, rec[] = {0, -5, 32767, 32768, 1};
+          Item it; it.setup = J::arr(); it.setup.push(slot0(blk[v], rec[v])); J op = J::obj(); op["k"] = "crypt_ra"; op["slot"] = 0; op["ph"] = Bytes(phrase).to_json(); op["st"] = Bytes(st).to_json(); op["m"] = METHODS[mi]; op["cls"] = "valid"; op["huge_ok"] = 0;
+          it.op = op; items.push_back(it);
+        }
       // one failing request per method
       for (auto &m : pool.malformed) if (m.first == METHODS[mi]) {
         Item it; it.setup = J::arr(); it.setup.push(slot0(-1, 0)); J op = J::obj(); op["k"] = "crypt_ra"; op["slot"] = 0; op["ph"] = Bytes(phrase).to_json(); op["st"] = Bytes(m.second).to_json(); op["m"] = m.first; op["cls"] = "malformed";
@@ -613,6 +736,14 @@ static J plan_c08(uint64_t seed, const std::string &tier) {
     }
     t["ops"] = ops; p["tasks"].push(t);
   }
+  // rarely: two tasks each make one large-memory (32 MiB: huge-page attempt + fallback path) yescrypt-family call
+  if (g.chance(1, 150)) {
+    int mi = (int)g.below(2); std::string big = ref_gensalt(PREFIX[mi], 6, rnd_bytes(g, 16));
+    if (!big.empty()) for (int ti = 0; ti < 2 && ti < (int)p["tasks"].a.size(); ti++) {
+      J op = J::obj(); op["k"] = "crypt_ra"; op["slot"] = 0; op["ph"] = Bytes(std::string("large-memory")).to_json(); op["st"] = Bytes(big).to_json(); op["m"] = METHODS[mi]; op["cls"] = "valid-large"; op["huge_ok"] = g.chance(1, 2);
+      p["tasks"].a[(size_t)ti]["ops"].push(op);
+    }
+  }
   // some plans hand the very same read-only phrase/setting buffer to several tasks
   if (g.chance(1, 3)) {
     Req r = valid_req(g, pool, false, 2);
@@ -635,7 +766,7 @@ static J plan_c12b(uint64_t seed, const std::string &tier) {
   p["rng_variant"] = variant;
   J t = J::obj(); t["objs"] = J::arr(); t["slots"] = 0;
   J ops = J::arr();
-  int n = (int)g.range(1, 8), faulty = (int)g.below((uint64_t)n + 1);
+  int n = (int)g.range(1, g.chance(1, 10) ? 24 : 8), faulty = (int)g.below((uint64_t)n + 1);
   int mi = (int)g.below(17);
   for (int i = 0; i < n; i++) {
     if (g.chance(1, 3)) mi = (int)g.below(17);
@@ -649,13 +780,14 @@ static J plan_c12b(uint64_t seed, const std::string &tier) {
         if (!g.chance(pct, 100)) return;
         J a = J::arr(); int k = (int)g.range(1, 2);
         for (int j = 0; j < k; j++) { std::string o = kinds[g.below(kinds.size())]; if (o == "short:") o += std::to_string(g.range(0, 20)); a.push(o); }
+        if (g.chance(1, 4)) { std::string last = a.a.back().s; a.a.back() = J(last + "*"); }   // pinned: every further call of this primitive in this op fails the same way
         sc[src] = a;
       };
-      if (variant & 1) outcomes("getentropy", {"enosys", "eio", "eintr"}, 75);
-      if (variant & 2) outcomes("getrandom", {"enosys", "eintr", "short:", "eagain", "eio"}, 75);
-      if (variant & 4) outcomes("sys_getrandom", {"enosys", "eintr", "short:", "eio"}, 75);
-      if (g.chance(1, 2)) outcomes("open", {"enoent", "emfile", "eacces"}, 60);
-      else outcomes("read", {"short:", "eio", "eintr", "short:"}, 70);
+      if (variant & 1) outcomes("getentropy", {"enosys", "eio", "eintr", "eperm", "einval", "efault"}, 75);
+      if (variant & 2) outcomes("getrandom", {"enosys", "eintr", "short:", "eagain", "eio", "short0", "shortmax", "einval", "eperm"}, 75);
+      if (variant & 4) outcomes("sys_getrandom", {"enosys", "eintr", "short:", "eio", "short0", "shortmax", "eagain", "efault"}, 75);
+      if (g.chance(1, 2)) outcomes("open", {"enoent", "emfile", "eacces", "eintr", "enfile", "enomem"}, 60);
+      else outcomes("read", {"short:", "eio", "eintr", "short:", "short0", "shortmax", "eagain", "ebadf"}, 70);
       if (sc.size()) op["script"] = sc;
     }
     ops.push(op);
